@@ -95,7 +95,7 @@ func checkC01(c *core.Ctx) {
 	c.Assume("theory.Size, theory.ChordTable (conventional chord meanings), theory.Key.TonicOffset", "smfdec", "generated documents keep every pitch inside 0..127")
 
 	// random pieces
-	c.Stream("random", c.N(1500, 20000), func(i int, r *rand.Rand) {
+	c.Stream("random", c.N(4000, 30000), func(i int, r *rand.Rand) {
 		p := model.RandPiece(r, model.GenOpts{MinLen: 1, MaxLen: c.N(12, 40), RestProb: 0.2, SettingProb: 0.15, TextProb: 0.05, KeyChanges: true, BassProb: 0.5})
 		var f model.Flags
 		if r.Intn(3) == 0 {
@@ -116,7 +116,7 @@ func checkC01(c *core.Ctx) {
 	c.Extra("product_key_degree_symbol", total)
 	nDocs := docs
 	if c.Quick() {
-		nDocs = 120
+		nDocs = 300
 	} else {
 		c.Exhaustive(true)
 	}
@@ -147,7 +147,7 @@ func checkC01(c *core.Ctx) {
 	c.Extra("product_key_degree_bass", totalB)
 	nB := docsB
 	if c.Quick() {
-		nB = 80
+		nB = 200
 	}
 	c.Stream("bass", nB, func(d int, r *rand.Rand) {
 		doc := d
@@ -173,7 +173,7 @@ func checkC01(c *core.Ctx) {
 			places = append(places, place{n, m})
 		}
 	}
-	reps := c.N(2, 12)
+	reps := c.N(4, 20)
 	c.Stream("keyplace", len(places)*2*reps, func(i int, r *rand.Rand) {
 		pl := places[i%len(places)]
 		withFlag := (i/len(places))%2 == 1
